@@ -135,6 +135,18 @@ def repeated_id_deletes(s):
                 idx += 1
                 if s.mine(idx):
                     K.run_case(s, ro_txt, kind, dict(ids=ids), ctx={'repeated-ids': 'story'})
+    # ... and messages that name none of the repeated stories: fully applied, nothing to report, nothing else touched
+    new = lambda i: gen.simple_story(i, 1)
+    for names in (['A', 'X', 'B', 'X'], ['X', 'X', 'A']):
+        ro_txt = gen.grid_ro(names, 'before', pretty=False)
+        for kind, kw in [('roStoryAppend', dict(carried=[new('N1')])), ('roStoryInsert', dict(target='A', carried=[new('N1'), new('N2')])),
+                         ('EAStoryInsert', dict(target='A', carried=[new('N1')])), ('EAStoryInsert', dict(target=B.BLANK, carried=[new('N1')])),
+                         ('roStoryInsert', dict(target='A', carried=[new('N1'), new('A')])),
+                         ('roStoryReplace', dict(target='A', carried=[new('N1')])), ('roStoryMove', dict(ids=['A'], target=B.BLANK)),
+                         ('roItemInsert', dict(story_ref='A', target=B.BLANK, carried=[B.item('n', 'x')]))]:
+            idx += 1
+            if s.mine(idx):
+                K.run_case(s, ro_txt, kind, kw, ctx={'repeated-ids': 'unrelated message'})
     for order in (['i', 'j', 'i'], ['i', 'i', 'j'], ['j', 'i', 'i']):
         st = gen.simple_story('S', 0)
         for k, n in enumerate(order):
